@@ -134,7 +134,7 @@ def check_tree(drv, el, dump, values, out, stats, origin, regime="ignore", repea
         except (TypeError, ValueError):
             enc_vals.append(None)
     model = None
-    if all(e is not None for e in enc_vals):
+    if all(e is not None for e in enc_vals) and not core.outside_additional_properties_model(dump):
         pats, fmts = core.elem_patterns_formats(el)
         texts = set()
         for v in values:
